@@ -31,7 +31,7 @@ WITNESS = {
     # children sl=1, sl=2, a, b (hash table exists); change sl=1 -> 5: stale record under the old hash
     "F19": ("S1", ["new,1,-,saa:c,-", "new,2,1,saa:sll,31", "new,3,1,saa:sll,32", "new,4,1,saa:a,78", "new,5,1,saa:b,78", "change,2,35"], 16),
     # lyd_insert_sibling(sibling, node) with node = first sibling of that list: node ends in a one-element ring
-    "F140": ("S1", ["new,1,-,saa:c,-", "new,2,1,saa:a,78", "new,3,1,saa:b,78", "ins_sibling,2,3"], None),
+    "F112": ("S1", ["new,1,-,saa:c,-", "new,2,1,saa:a,78", "new,3,1,saa:b,78", "ins_sibling,2,3"], None),
     # opaque node linked among data nodes by lyd_insert_before: linear searches stop at it
     "F141": ("S1", ["new,1,-,saa:c,-", "new,2,1,saa:ull,31", "new,3,1,saa:ull,32", "newopaq,4,-,oq,-", "ins_before,4,2"], None),
     # a second key leaf re-hashes the list instance and indexes it again without removing the old record
@@ -52,7 +52,7 @@ def classify(component, what, case):
     if component != "sib":
         return None
     a = case.get("attrib")
-    return a if a in ("F19", "F140", "F141", "F142", "F45", "F144", "F145") else None
+    return a if a in ("F19", "F112", "F141", "F142", "F45", "F144", "F145") else None
 
 
 # ------------------------------------------------------------------------------------------------ helpers
